@@ -3,7 +3,7 @@
 import json, sys, glob, os
 pid, wt, out = sys.argv[1], sys.argv[2], sys.argv[3]
 start = int(sys.argv[4]) if len(sys.argv) > 4 else 4
-tpl = open("/tmp/prompts/seed_template.md").read()
+tpl = open("/verif/tools/prompts/seed_template.md").read()
 for l in open("/verif/properties.jsonl"):
     p = json.loads(l)
     if p["id"] == pid:
